@@ -513,7 +513,70 @@ def check_pickle(ctx):
     ctx.ok(R, ("thejoker", 1, "thejoker.<package>"), "exception classes defined in the package: %d, all picklable" % n, nontrivial=False)
 
 
+LOCK_FIXTURE = """
+import threading
+_g = threading.Lock()
+def bad(x):
+    if not _g.acquire(blocking=False):
+        raise RuntimeError("busy")
+    y = work(x)
+    _g.release()
+    return y
+def good(x):
+    _g.acquire()
+    try:
+        return work(x)
+    finally:
+        _g.release()
+"""
+
+
+def unreleased_acquires(fn):
+    """`X.acquire(...)` calls of fn that are not followed (same block or an enclosing one, later in document order) by a try whose `finally` releases X; a `with X:`
+    needs no release"""
+    out = []
+    for c in A.calls_in(fn):
+        if not (isinstance(c.func, ast.Attribute) and c.func.attr == "acquire"):
+            continue
+        recv = canon(c.func.value)
+        st = A.enclosing_stmt(c)
+        ok = False
+        for t in A.walk_local(fn):
+            if isinstance(t, ast.Try) and t.finalbody and A.doc_index(t) > A.doc_index(st):
+                rel = [x for s_ in t.finalbody for x in A.calls_in(s_) if isinstance(x.func, ast.Attribute) and x.func.attr == "release" and canon(x.func.value) == recv]
+                if rel:
+                    # nothing that can fail may sit between the acquire and the try
+                    blk = A.block_of(t)
+                    between = [s_ for s_ in (blk[2][:blk[3]] if blk else []) if A.doc_index(s_) > A.doc_index(st)]
+                    if not any(A.calls_in(s_) for s_ in between):
+                        ok = True
+        if not ok:
+            out.append((c, recv))
+    return out
+
+
+def check_locks(ctx):
+    R = "C13-LOCK"
+    ctx.rule(R, "resource typestate: a lock / semaphore acquired with `.acquire()` anywhere in the package is released in a `finally` that starts right after the acquisition "
+                "(or is used as a context manager): a failing read must not leave the guard held, or every later call in this process fails.")
+    from ..loader import _link
+    ft = ast.parse(LOCK_FIXTURE)
+    _link(ft, None)
+    fx = {f.name: unreleased_acquires(f) for f in ft.body if isinstance(f, ast.FunctionDef)}
+    if not fx.get("bad") or fx.get("good"):
+        ctx.incomplete_(R, "fixture", "the acquire/release scanner no longer separates the positive from the negative fixture")
+    n = 0
+    for mn, q, fn in ctx.prog.all_functions():
+        for f in ctx.prog.modules[mn].all_functions.get(q, [fn]):
+            n += 1
+            for c, recv in unreleased_acquires(f):
+                ctx.violate(R, c, "`%s` in %s is released on every exit" % (A.unparse(c)[:50], q),
+                            "`%s.acquire()` is not paired with a try/finally release: an exception between acquire and release leaves it held for the life of the process" % recv, key="lock:%s:%s" % (q, recv))
+    ctx.ok(R, ("thejoker", 1, "thejoker.<package>"), "no unpaired acquire in %d functions" % n, nontrivial=False)
+
+
 def run(ctx):
+    check_locks(ctx)
     cg = CallGraph(ctx.prog)
     for e in ENTRY:
         ctx.prog.func(e[0], e[1], "C13-ENTRY")
